@@ -52,7 +52,8 @@ def generators():
     import gen_skel
     import gen_create
     import gen_handshake
-    gens = {'Create': gen_create.generate, 'Handshake': gen_handshake.generate, 'Framing': gen_framing.generate, 'Registry': gen_registry.generate, 'Persist': gen_persist.generate,
+    import gen_shutdown
+    gens = {'Shutdown': gen_shutdown.generate, 'Create': gen_create.generate, 'Handshake': gen_handshake.generate, 'Framing': gen_framing.generate, 'Registry': gen_registry.generate, 'Persist': gen_persist.generate,
             'MroScan': gen_mro.generate, 'Skel': gen_skel.generate}
     try:
         import gen_units
